@@ -15,7 +15,7 @@ from vf.xmodel import build_api
 
 SHARDS = {'quick': 16, 'thorough': 64}
 TIMEOUT = {'quick': 1200, 'thorough': 7200}
-MUST_HIT = ['EarlierObject.rechecked', 'Snap.roundtrip', 'Snap.fixed-point', 'route.serialize_database', 'route.split-texts',
+MUST_HIT = ['Population.keys-of-equal-hash-value', 'EarlierObject.rechecked', 'Snap.roundtrip', 'Snap.fixed-point', 'route.serialize_database', 'route.split-texts',
             'route.persist_database', 'route.persist-split', 'route.dispatch', 'route.schema-less',
             'build.schema-first', 'build.instances-first', 'build.formalize-last',
             'Population.self-links', 'Population.permuted-compound-keys', 'Population.zero-valued-key']
@@ -253,6 +253,7 @@ def run(ctx):
                 ctx.violation(e.key, e.what, case=case)
         ctx.hit('Population.self-links', sqlgen.SELF_LINKS[0])
         ctx.hit('Population.permuted-compound-keys', sqlgen.PERMUTED_KEYS[0])
+        ctx.hit('Population.keys-of-equal-hash-value', sqlgen.HASH_TWINS[0])
         ctx.hit('Population.zero-valued-key', sqlgen.ZERO_KEYS[0])
         for k, v in sqlgen.SHAPES.items():
             ctx.hit('Schema.' + k, v)
